@@ -9,6 +9,7 @@ import (
 	"os"
 	"path/filepath"
 	"strings"
+	"time"
 
 	"verifharness/vsched"
 )
@@ -97,6 +98,7 @@ type summary struct {
 	Violations []Violation          `json:"violations"`
 	Samples    []map[string]any     `json:"samples"`
 	Executions int                  `json:"executions"`
+	TimedOut   bool                 `json:"stopped_at_time_limit"`
 }
 
 type runner struct {
@@ -106,6 +108,7 @@ type runner struct {
 	index   *bufio.Writer
 	id      int
 	configs map[string]map[string]bool
+	deadline time.Time
 }
 
 func (r *runner) record(ex *Exec, por bool) {
@@ -175,8 +178,13 @@ func traceStrings(log []vsched.Event) []string {
 	return out
 }
 
+// enough failing schedules were found: stop exploring (each further one costs a full step limit)
+func (r *runner) enough() bool {
+	return len(r.sum.Violations) >= 5 || (!r.deadline.IsZero() && time.Now().After(r.deadline))
+}
+
 func (r *runner) random(c Config, n int, rng *rand.Rand) error {
-	for i := 0; i < n; i++ {
+	for i := 0; i < n && !r.enough(); i++ {
 		ex, err := RunOne(r.F, c, &vsched.Random{State: rng.Uint64() | 1}, false)
 		if err != nil {
 			return err
@@ -201,7 +209,7 @@ func (r *runner) dfs(c Config, budget int, por bool) error {
 	}
 	var prefix []int
 	for n := 0; ; n++ {
-		if n >= budget {
+		if n >= budget || r.enough() {
 			return nil
 		}
 		ex, err := RunOne(r.F, c, &vsched.Replay{Prefix: prefix}, por)
@@ -236,6 +244,7 @@ func MainV(F *VFuncs) {
 	out := flag.String("out", "", "output directory")
 	systems := flag.String("systems", strings.Join(ChannelSystems, ","), "systems to run")
 	replay := flag.String("replay", "", "replay file (JSON with config and choices)")
+	maxsec := flag.Int("maxsec", 0, "stop exploring after this many seconds (0 = no limit); the summary says so")
 	flag.Parse()
 	if *replay != "" {
 		os.Exit(replayMain(F, *replay))
@@ -255,6 +264,9 @@ func MainV(F *VFuncs) {
 		ops: bufio.NewWriterSize(fo, 1<<20), index: bufio.NewWriterSize(fi, 1<<20), configs: map[string]map[string]bool{}}
 	rng := rand.New(rand.NewSource(*seed))
 	thorough := *mode == "thorough"
+	if *maxsec > 0 {
+		r.deadline = time.Now().Add(time.Duration(*maxsec) * time.Second)
+	}
 	for _, sys := range strings.Split(*systems, ",") {
 		r.sum.Systems[sys] = &sysStats{}
 		r.configs[sys] = map[string]bool{}
@@ -266,6 +278,7 @@ func MainV(F *VFuncs) {
 	r.index.Flush()
 	fo.Close()
 	fi.Close()
+	r.sum.TimedOut = !r.deadline.IsZero() && time.Now().After(r.deadline)
 	js, _ := json.MarshalIndent(r.sum, "", " ")
 	if err := os.WriteFile(filepath.Join(*out, "summary.json"), js, 0o644); err != nil {
 		fatal(err)
